@@ -1,100 +1,100 @@
 CHECKS["C12"] = (
  "online reference-model monitor over random cursor histories (runtime monitoring)",
- "Every method result of parse.Input and buffer.Lexer is compared with an executable reference cursor while 10^6 (quick) / 3*10^7 (thorough) random contract-respecting histories run over hostile inputs and all constructors incl. failing readers; caller backing array guarded by a canary. Held-on-what-was-observed, not a proof.",
+ "Every method result of parse.Input and buffer.Lexer is compared with an executable reference cursor while {Q} (quick) / {T} (thorough) random contract-respecting histories run over hostile inputs and all constructors incl. failing readers; caller backing array guarded by a canary. Held-on-what-was-observed, not a proof.",
  "Trusts unicode/utf8 as the decoding reference and the harness's reference cursor (40 lines). Histories never move past the terminator (documented contract).",
  "DESIGN.md §4 C12")
 CHECKS["C13"] = (
  "online reference-model monitor over reader schedules x op histories, shadow copies of returned slices, pool-invariant hook, held-memory measurement (runtime monitoring)",
- "StreamLexer is driven by 1.5*10^6 (quick) / 4*10^7 (thorough) random histories over random reader chunk schedules (zero-length reads, EOF/error with or after the last bytes, failure at a random offset), initial sizes 0..4096 and five Free disciplines; every result is compared with a reference cursor, every returned slice is shadow-copied and re-compared after each call while protected, ShiftLen is compared with the model, hook H2 pool invariants are asserted at each quiescent point, and held memory / allocation are measured on streams of length L and 8L. Held on what was observed.",
+ "StreamLexer is driven by {Q} (quick) / {T} (thorough) random histories over random reader chunk schedules (zero-length reads, EOF/error with or after the last bytes, failure at a random offset), initial sizes 0..4096 and five Free disciplines; every result is compared with a reference cursor, every returned slice is shadow-copied and re-compared after each call while protected, ShiftLen is compared with the model, hook H2 pool invariants are asserted at each quiescent point, and held memory / allocation are measured on streams of length L and 8L. Held on what was observed.",
  "Trusts the reference cursor and the reading of the protection threshold recorded in DESIGN.md §4 C13; memory clause decided against the bound 32*(bufsize+k*longest)+4 KiB with full-buffer reads for the delayed discipline (see DESIGN).",
  "DESIGN.md §4 C13")
 CHECKS["C01"] = (
  "hostile-input workloads under panic/fatal-error, pointer-range, call-bound, sticky-end and stack monitors in child processes (runtime monitoring)",
- "6*10^5 (quick) / 1.8*10^7 (thorough) hostile byte strings are fed to 14 streaming entry points x 4 Input constructors and to js.Parse x 4 Options; every call runs under recover(), children are watched for fatal errors, every slice handed out is classified against the input buffer, the number of calls until the terminal report is bounded by 4*len+64, the terminal report must repeat, error offsets (hook H1) must lie inside the input, accepted trees are printed/walked/converted, and 69 recursive constructs are nested 10^3..10^6 deep with the stack high-water measured. Held on what was observed.",
+ "{Q} (quick) / {T} (thorough) hostile byte strings are fed to 14 streaming entry points x 4 Input constructors and to js.Parse x 4 Options; every call runs under recover(), children are watched for fatal errors, every slice handed out is classified against the input buffer, the number of calls until the terminal report is bounded by 4*len+64, the terminal report must repeat, error offsets (hook H1) must lie inside the input, accepted trees are printed/walked/converted, and 69 recursive constructs are nested 10^3..10^6 deep with the stack high-water measured. Held on what was observed.",
  "A hang is decided by CPU time (90 s in a batch, 600 s alone). 'Terminal report' is read as an Error result that does not advance the cursor and repeats identically (weakest reading covering sticky lexer errors such as XML NUL).",
  "DESIGN.md §4 C01")
 CHECKS["C14"] = (
  "differential monitors against strconv/math/big on boundary-centred generated inputs, dst canaries (runtime monitoring)",
- "1.6*10^6 (quick) / 4.3*10^7 (thorough) cases (about 10 evaluations each): parsers compared with a longest-prefix reference and math/big / strconv.ParseFloat within the stated 1e-14, formatters checked for well-formedness, sign, parse-back window and destination preservation, AppendNumber/ParseNumber round trip over multi-byte symbols. Held on what was observed.",
+ "{Q} (quick) / {T} (thorough) cases (about 10 evaluations each): parsers compared with a longest-prefix reference and math/big / strconv.ParseFloat within the stated 1e-14, formatters checked for well-formedness, sign, parse-back window and destination preservation, AppendNumber/ParseNumber round trip over multi-byte symbols. Held on what was observed.",
  "Tolerances and readings are those of DESIGN.md §4 C14 (AppendFloat: at least prec correct leading digits, truncated). Trusts strconv/math/big.",
  "DESIGN.md §4 C14")
 CHECKS["C16"] = (
  "differential monitors against regexp, net/url, encoding/base64, mime and byte-wise references, canaries on in-place regions (runtime monitoring)",
- "2.1*10^6 (quick) / 6.2*10^7 (thorough) cases around the syntax boundaries of Number, Dimension, EncodeURL/DecodeURL, DataURI, Mediatype, EqualFold/ToLower/TrimWhitespace/IsAllWhitespace and the css/html hash tables (all 256 byte values, every constant, near-miss non-members). Held on what was observed.",
+ "{Q} (quick) / {T} (thorough) cases around the syntax boundaries of Number, Dimension, EncodeURL/DecodeURL, DataURI, Mediatype, EqualFold/ToLower/TrimWhitespace/IsAllWhitespace and the css/html hash tables (all 256 byte values, every constant, near-miss non-members). Held on what was observed.",
  "Mediatype compared with mime only on generated well-formed lower-case unquoted values; DecodeURL with url.QueryUnescape only where that succeeds. Trusts the standard library references.",
  "DESIGN.md §4 C16")
 CHECKS["C17"] = (
  "reference-model and read-back monitors (regexp, html.UnescapeString, the library's own lexers) on fragment-built strings (runtime monitoring)",
- "1.05*10^6 (quick) / 4*10^7 (thorough) cases: whitespace function vs regexp, ReplaceEntities for length, idempotence and decoded-text preservation over consistent entity maps, combined function vs sequence, html/xml EscapeAttrVal read back through the lexers with the documented quoting decision, EscapeCDATAVal un-escape. Held on what was observed.",
+ "{Q} (quick) / {T} (thorough) cases: whitespace function vs regexp, ReplaceEntities for length, idempotence and decoded-text preservation over consistent entity maps, combined function vs sequence, html/xml EscapeAttrVal read back through the lexers with the documented quoting decision, EscapeCDATAVal un-escape. Held on what was observed.",
  "Decoded text is html.UnescapeString repaired for two stdlib deviations (numeric references above 0x10FFFF, empty hexadecimal reference) and with NUL/U+FFFD identified; entity maps are consistent with HTML and in normal form.",
  "DESIGN.md §4 C17")
 CHECKS["C19"] = (
  "reference-model monitor (bytes.Reader + encoding/binary) over typed write/read scripts on eight backends with truncation at every byte, Go race detector for parallel ReadAt (runtime monitoring)",
- "7.5*10^4 (quick) / 2.1*10^6 (thorough) cases: BinaryWriter bytes compared with encoding/binary, every read on every backend compared with a model {data,pos,eof}, Seek compared with bytes.Reader for all (whence, target), Read/ReadAt io contracts, Bitmap round trip and 8*len bits, and goroutines doing parallel ReadAt on one reader and on clones under the -race build. Held on what was observed.",
+ "{Q} (quick) / {T} (thorough) cases: BinaryWriter bytes compared with encoding/binary, every read on every backend compared with a model {data,pos,eof}, Seek compared with bytes.Reader for all (whence, target), Read/ReadAt io contracts, Bitmap round trip and 8*len bits, and goroutines doing parallel ReadAt on one reader and on clones under the -race build. Held on what was observed.",
  "Readings of the short-read and Seek-beyond-end cases are listed in the evidence assumptions. Race clause rests on the Go race detector's happens-before analysis of the executions produced.",
  "DESIGN.md §4 C19")
 CHECKS["C02"] = (
  "tiling / pointer-range trace monitor over token events, re-lex differential, buffer diff against a pristine copy (runtime monitoring)",
- "2*10^6 (quick) / 4.8*10^7 (thorough) hostile inputs through the css, js, html (plain and 3 template dialects) and xml lexers with 4 Input constructors: every token is compared with the buffer at the offset reported after the call, order/non-emptiness/no spare capacity are asserted, css and js tokens before the first lexical error must tile exactly and re-lex to themselves, html/xml gaps must be tag-internal whitespace, Text/AttrKey/AttrVal must lie inside their token, and the buffer is diffed with a pristine copy for rewrites outside the allowed regions. Held on what was observed.",
+ "{Q} (quick) / {T} (thorough) hostile inputs through the css, js, html (plain and 3 template dialects) and xml lexers with 4 Input constructors: every token is compared with the buffer at the offset reported after the call, order/non-emptiness/no spare capacity are asserted, css and js tokens before the first lexical error must tile exactly and re-lex to themselves, html/xml gaps must be tag-internal whitespace, Text/AttrKey/AttrVal must lie inside their token, and the buffer is diffed with a pristine copy for rewrites outside the allowed regions. Held on what was observed.",
  "Readings of the allowed rewrites (whole end-tag token lower-cased, names of foreign elements cut short by NUL) are listed in the evidence assumptions and DESIGN.md §4 C02.",
  "DESIGN.md §4 C02")
 CHECKS["C10"] = (
  "differential monitor against encoding/json (Valid/Compact), shadow-stack nesting monitor with State() and depth hook, structural-mutant oracle (runtime monitoring)",
- "9*10^5 (quick) / 2.4*10^7 (thorough) cases: generated valid documents must parse without error and re-join byte-identically to json.Compact; on fuzzed inputs every Start/End unit is matched against a shadow stack, State() and the hooked stack depth are compared with it after every call; five kinds of structural mutants (mismatched/extra closer, missing comma, missing colon, non-string key) must end in a *parse.Error before the offending construct is delivered. Held on what was observed.",
+ "{Q} (quick) / {T} (thorough) cases: generated valid documents must parse without error and re-join byte-identically to json.Compact; on fuzzed inputs every Start/End unit is matched against a shadow stack, State() and the hooked stack depth are compared with it after every call; five kinds of structural mutants (mismatched/extra closer, missing comma, missing colon, non-string key) must end in a *parse.Error before the offending construct is delivered. Held on what was observed.",
  "encoding/json.Valid defines validity. After an error report only Start/End matching is demanded.",
  "DESIGN.md §4 C10")
 CHECKS["C11"] = (
  "construction-time ground truth from a document generator, differential monitor against encoding/xml RawToken, attribute-placement trace automaton and end-report clause on hostile bytes (runtime monitoring)",
- "7*10^5 (quick) / 1.8*10^7 (thorough) cases: generated well-formed documents are compared token by token (type, bytes, Text(), AttrVal()) with the abstract document they were spelled from and with encoding/xml for element names, attribute names and entity-free values; on hostile byte strings Attribute tokens must lie between a start tag and its closer, io.EOF may only be reported at Offset()==Len(), and an input containing NUL must end in an error. Held on what was observed.",
+ "{Q} (quick) / {T} (thorough) cases: generated well-formed documents are compared token by token (type, bytes, Text(), AttrVal()) with the abstract document they were spelled from and with encoding/xml for element names, attribute names and entity-free values; on hostile byte strings Attribute tokens must lie between a start tag and its closer, io.EOF may only be reported at Offset()==Len(), and an input containing NUL must end in an error. Held on what was observed.",
  "Generator restricted to the XML subset named in the property (see evidence assumptions); encoding/xml is trusted as the conforming reader.",
  "DESIGN.md §4 C11")
 CHECKS["C09"] = (
  "construction-time ground truth from a document generator compared token by token, attribute-placement trace automaton on hostile bytes (runtime monitoring)",
- "6*10^5 (quick) / 1.6*10^7 (thorough) cases: generated documents of well-formed HTML constructs (all attribute syntaxes, void/end tags, six raw-text elements with look-alike end tags and script double-escape, plaintext, svg/math) in random case and whitespace, half with one of the six template dialects, are lexed and every token is compared (type, exact bytes, Text/AttrKey, AttrVal, HasTemplate) with the abstract document; on hostile bytes Attribute tokens must lie between a start tag and its closer. Held on what was observed; three recorded known findings about svg/math content are probed individually.",
+ "{Q} (quick) / {T} (thorough) cases: generated documents of well-formed HTML constructs (all attribute syntaxes, void/end tags, six raw-text elements with look-alike end tags and script double-escape, plaintext, svg/math) in random case and whitespace, half with one of the six template dialects, are lexed and every token is compared (type, exact bytes, Text/AttrKey, AttrVal, HasTemplate) with the abstract document; on hostile bytes Attribute tokens must lie between a start tag and its closer. Held on what was observed; three recorded known findings about svg/math content are probed individually.",
  "Random svg/math content avoids the three shapes recorded in known_findings.jsonl; template regions are placed at the positions the unit tests document.",
  "DESIGN.md §4 C09")
 CHECKS["C07"] = (
  "construction-time ground truth from a token-sequence generator with a conservative would-merge predicate, differential monitor IsIdent/IsURLUnquoted vs the lexer (runtime monitoring)",
- "10^6 (quick) / 2.5*10^7 (thorough) cases: sequences of 1-40 tokens over all 33 token kinds, separated only where neighbours could merge, must lex to exactly the written (type, text) sequence incl. BadString on a raw newline and one BadURL up to the closing parenthesis; IsIdent and IsURLUnquoted are compared with the lexer on byte strings around the syntax boundaries. Evidence lists the adjacent-kind pairs observed. Held on what was observed.",
+ "{Q} (quick) / {T} (thorough) cases: sequences of 1-40 tokens over all 33 token kinds, separated only where neighbours could merge, must lex to exactly the written (type, text) sequence incl. BadString on a raw newline and one BadURL up to the closing parenthesis; IsIdent and IsURLUnquoted are compared with the lexer on byte strings around the syntax boundaries. Evidence lists the adjacent-kind pairs observed. Held on what was observed.",
  "The generator encodes the css-syntax-3 railroad diagrams plus the 2014 tokens the lexer keeps; url is spelled with plain letters.",
  "DESIGN.md §4 C07")
 CHECKS["C08"] = (
  "construction-time ground truth from a stylesheet generator compared unit by unit; shadow-stack nesting monitor with state-stack hook, offset-window token-conservation monitor against an independent lexer run, end-report clause on hostile bytes (runtime monitoring)",
- "7*10^5 (quick) / 1.8*10^7 (thorough) cases: generated well-formed stylesheets and inline declaration lists must yield exactly the abstract unit sequence (type, lower-cased name, Values() with the whitespace rules of the statement); on hostile byte strings every Begin/End unit is matched against a shadow stack while no parse error was reported (also against the hooked state-stack depth), every token reported through data or Values() must be one of the lexer tokens consumed by that call, in source order, and the stream must end with ErrorGrammar/io.EOF within 2*tokens+8 calls and stay there. Held on what was observed.",
+ "{Q} (quick) / {T} (thorough) cases: generated well-formed stylesheets and inline declaration lists must yield exactly the abstract unit sequence (type, lower-cased name, Values() with the whitespace rules of the statement); on hostile byte strings every Begin/End unit is matched against a shadow stack while no parse error was reported (also against the hooked state-stack depth), every token reported through data or Values() must be one of the lexer tokens consumed by that call, in source order, and the stream must end with ErrorGrammar/io.EOF within 2*tokens+8 calls and stay there. Held on what was observed.",
  "Whitespace is generated only at positions on which the statement is explicit (see evidence assumptions); Values() is checked only for the unit kinds its documentation names plus parse-error units.",
  "DESIGN.md §4 C08")
 CHECKS["C03"] = (
  "construction-time ground truth: abstract programs spelled in several styles, metamorphic comparison of String() against the fully parenthesised spelling, generator-side WhileToFor rewrite, rejection mutants (runtime monitoring)",
- "10^5 (quick) / 2.7*10^6 (thorough) cases: every generated ES2022 program is spelled in a fully parenthesised reference style and four other styles (minimal/redundant parentheses, whitespace/comments/line breaks, ';' vs ASI); all spellings must be accepted under every applicable Options value and give, after removing GroupExpr, the String() of the reference spelling; WhileToFor must give the tree of the generator-rewritten for-loop program; single-bracket mutants, forbidden operator combinations and duplicate lexical declarations must be rejected without a tree. Evidence lists operator-in-operator pairs and node kinds observed. Held on what was observed.",
+ "{Q} (quick) / {T} (thorough) cases: every generated ES2022 program is spelled in a fully parenthesised reference style and four other styles (minimal/redundant parentheses, whitespace/comments/line breaks, ';' vs ASI); all spellings must be accepted under every applicable Options value and give, after removing GroupExpr, the String() of the reference spelling and a tree equal to it field by field (reflection; token types, flags, nil-vs-empty); WhileToFor must give the tree of the generator-rewritten for-loop program; single-bracket mutants, forbidden operator sequences composed from operand/operator tables and duplicate lexical declarations must be rejected without a tree; identifiers include the contextual keywords async/of/get/set/as/from, import/export clauses are generated. Evidence lists operator-in-operator pairs and node kinds observed. Held on what was observed.",
  "The fully parenthesised spelling is taken as the definition of the prescribed structure (it leaves the parser no precedence/associativity/ASI decision). Generator domain listed in the evidence assumptions; generated programs were cross-checked for validity with an independent engine during development only.",
  "DESIGN.md §4 C03")
 CHECKS["C04"] = (
  "reference-model monitor: the generator's own ECMAScript scope resolver labels every identifier; the library tree is renamed, printed and lexed, and the identifier tokens are aligned with the generator's (runtime monitoring)",
- "4*10^5 (quick) / 1.2*10^7 (thorough) generated programs with names drawn from a pool of five (shadowing at every level, hoisting through blocks, closures, catch clauses, loop heads, classes, parenthesised lists that are or are not arrow heads): same binding <=> same fresh name, unbound names unchanged and listed in the outermost Undeclared, Var.Uses == printed occurrences, renamed program accepted. Three recorded known findings are probed individually. Held on what was observed.",
+ "{Q} (quick) / {T} (thorough) generated programs with names drawn from a pool of five plus six contextual keywords (shadowing at every level, hoisting of var and block-level function declarations, closures, catch clauses incl. var redeclaring the parameter, loop heads, parameter defaults that mention outer names, classes, parenthesised lists that are or are not arrow heads): same binding <=> same fresh name, unbound names unchanged and listed in the outermost Undeclared, Var.Uses == printed occurrences, renamed program accepted. Six recorded known findings are probed individually. Held on what was observed.",
  "Domain restrictions (no forward references between parameters, literal-only pattern defaults, declarations one block below a for body, no class-expression self reference) are listed in the evidence assumptions and DESIGN.md.",
  "DESIGN.md §4 C04")
 CHECKS["C05"] = (
  "round-trip monitor (parse, print, re-parse, re-print) over generated programs, literal-stress snippets and mutated corpus entries, through JSString and JS(Indenter) (runtime monitoring)",
- "3.5*10^5 (quick) / 9*10^6 (thorough) inputs: for every accepted valid-UTF-8 input under a random Options value the printed text must be accepted, its tree (String() after removing GroupExpr) must equal the original and re-printing must reproduce the text byte for byte, also when printed through an outer parse.Indenter of width 0-8 and for literals with line breaks nested in 0-6 blocks. Held on what was observed.",
+ "{Q} (quick) / {T} (thorough) inputs: for every accepted valid-UTF-8 input under a random Options value the printed text must be accepted, its tree must equal the original (String() after removing GroupExpr, and field by field through reflection) and re-printing must reproduce the text byte for byte, also when printed through an outer parse.Indenter of width 0-8 and for literals with line breaks nested in 0-6 blocks. Held on what was observed.",
  "Tree identity is observed through String() after a reflection-based removal of GroupExpr nodes.",
  "DESIGN.md §4 C05")
 CHECKS["C06"] = (
  "construction-time ground truth from a token-sequence generator with a conservative would-merge predicate, lexer state hook H4, canonical-spelling monitor on hostile bytes (runtime monitoring)",
- "1.9*10^6 (quick) / 6.2*10^7 (thorough) cases: token sequences over the whole ECMAScript vocabulary (all punctuators, reserved and contextual keywords, identifiers with escapes and astral letters, all numeric forms, strings, nested templates, comments, all whitespace and line-terminator kinds) must lex to exactly the written (type, text) sequence, RegExp() must return the written literal, the hooked bracket level / open-template count must match the generator's; on hostile bytes every punctuator/keyword token's canonical spelling must equal its text. Evidence keeps the adjacent-kind pair matrix. Held on what was observed.",
+ "{Q} (quick) / {T} (thorough) cases: token sequences over the whole ECMAScript vocabulary (all punctuators, reserved and contextual keywords, identifiers with escapes and astral letters, all numeric forms, strings, nested templates, comments, all whitespace and line-terminator kinds) must lex to exactly the written (type, text) sequence, RegExp() must return the written literal, the hooked bracket level / open-template count must match the generator's; on hostile bytes every punctuator/keyword token's canonical spelling must equal its text. Evidence keeps the adjacent-kind pair matrix. Held on what was observed.",
  "Separators are inserted whenever merging cannot be excluded; domain exclusions (legacy octal, HTML-like comment openers, regular expressions without RegExp()) are listed in the evidence assumptions.",
  "DESIGN.md §4 C06")
 CHECKS["C15"] = (
  "reference-model monitor for Position (line/column/context) on generated texts at every offset, error-offset hook H1 on hostile inputs for every lexer/parser, illegal-character insertion at token boundaries of generated JS/JSON (runtime monitoring)",
- "1.75*10^5 (quick) / 4.5*10^6 (thorough) cases (about 4*10^6 Position evaluations in the quick tier): line and column against an independent reference for all five break kinds, context layout and caret position, every *parse.Error's offset inside the input and its line/column/context equal to Position(input, offset), and exact position of one illegal character inserted between two tokens. Held on what was observed.",
+ "{Q} (quick) / {T} (thorough) cases (about 4*10^6 Position evaluations in the quick tier): line and column against an independent reference for all five break kinds, context layout and caret position, every *parse.Error's offset inside the input and its line/column/context equal to Position(input, offset), and exact position of one illegal character inserted between two tokens. Held on what was observed.",
  "Context layout details the statement leaves open (number column width, how a U+2028 ends the context line) are not judged; see evidence assumptions.",
  "DESIGN.md §4 C15")
 CHECKS["C18"] = (
  "trace monitor over the Enter/Exit log of a recording visitor against a reflection walk of the same tree (runtime monitoring)",
- "2*10^5 (quick) / 5*10^6 (thorough) trees from generated programs and mutated corpus entries x three visitor policies: every statement/expression/binding/identifier/block position entered (exactly once per position when descending everywhere), parent before child, Exit once per non-nil Enter in stack order, nothing entered below a node whose Enter returned nil, no entered node from outside the tree. Held on what was observed.",
+ "{Q} (quick) / {T} (thorough) trees from generated programs and mutated corpus entries x three visitor policies: every statement/expression/binding/identifier/block position entered (exactly once per position when descending everywhere), parent before child, Exit once per non-nil Enter in stack order, nothing entered below a node whose Enter returned nil, every pointer handed to Enter points into the tree (no copies, nothing reachable only through scope tables). Held on what was observed.",
  "Required positions are defined by reflection over exported fields other than Scope; Walk may additionally enter sub-structures.",
  "DESIGN.md §4 C18")
 CHECKS["C20"] = (
  "Go race detector over goroutines driving private instances of every entry point, digest comparison concurrent vs sequential, history-independence digests, data-segment/heap-one-level snapshot diff of library package variables (runtime monitoring)",
- "2.5*10^4 (quick) / 7.5*10^5 (thorough) cases: 8-64 goroutines run 48 entry-point families on private copies under -race (a race report fails the case; concurrent digests must equal sequential ones; the full entry x entry matrix is covered), pool cases are replayed after different prefixes and orders in several processes (digests must not depend on history), and all library data/bss symbols (followed one level through pointers, slices and maps) are snapshotted before and after mixed workloads. Held on what was observed.",
+ "{Q} (quick) / {T} (thorough) cases: 8-64 goroutines run 48 entry-point families on private copies under -race (a race report fails the case; concurrent digests must equal sequential ones; the full entry x entry matrix is covered), pool cases are replayed after different prefixes and orders in several processes (digests must not depend on history), and all library data/bss symbols (followed one level through pointers, slices and maps) are snapshotted before and after mixed workloads. Held on what was observed.",
  "Rests on the race detector's happens-before analysis of the executions produced; the 'no mutable package state' clause is decided by the snapshot diff instead of a static scan.",
  "DESIGN.md §4 C20")
